@@ -440,6 +440,16 @@ class Mailbox:
                     # there are no other commands running
                     #
                     return True
+
+                # NOTE: A STORE that is running may be about to set
+                #       `\Deleted`: "nothing to delete" only holds once it is
+                #       done (the expunge would renumber the mailbox under
+                #       the STORE and every other running command.)
+                #
+                if any(
+                    x.command == IMAPCommand.STORE for x in self.executing_tasks
+                ):
+                    return True
                 return False
 
             case IMAPCommand.COPY:
